@@ -164,20 +164,58 @@ def run(cx):
                         walk(s["init"])
                     walk(s["body"])
         walk(f["body"])
-        deleted = set()
-        for x in order:
-            if x[0] == "delete":
-                deleted.add(lname(x[1]))
-            if x[0] == "assign" and x[1] == "=" and x[2][0] == "member" and x[2][2] == "data":
-                owner = lname(x[2][1])
-                tgt = lname(x[2])
-                if owner in byref:
-                    r.check(tgt in deleted, f"{n}/delete-before-overwrite[{tgt}]", (em.rel, line), f"{n}: `{show(x)}` overwrites the buffer pointer of a caller-owned list without delete[] of the old buffer (leak on every call)", sample=f"{n}: delete[] {tgt} before {show(x)[:40]}")
-                src = x[3]
-                while src[0] == "cast":
-                    src = src[2]
-                if src[0] == "member" and src[2] == "data" and lname(src[1]) != owner:
-                    r.fail(f"{n}/aliasing-store[{show(x)}]", (em.rel, line), f"{n}: `{show(x)}` makes two lists share one buffer: freeing or growing either leaves the other dangling")
+        # path-sensitive must-analysis: which buffers have certainly been delete[]d when a data pointer is overwritten
+        def flow(stmts, deleted):
+            """returns the must-deleted set at the end of stmts (None = every path left through return)"""
+            cur = set(deleted)
+            for s_ in stmts:
+                for e in stmt_exprs(s_) if s_["k"] not in ("if", "for", "while") else ([s_["cond"]] if s_.get("cond") is not None else []):
+                    cur = visit(e, cur)
+                k_ = s_["k"]
+                if k_ == "block":
+                    res = flow(s_["body"], cur)
+                    if res is None:
+                        return None
+                    cur = res
+                elif k_ == "if":
+                    # `if (p != nullptr) delete[] p;` - where the test fails there is no buffer to free
+                    c_ = s_["cond"]
+                    nullp = None
+                    if c_ is not None and c_[0] == "bin" and c_[1] == "!=" and c_[3] == ("lit", None):
+                        nullp = lname(c_[2])
+                    elif c_ is not None and c_[0] in ("member", "var"):
+                        nullp = lname(c_)
+                    a_ = flow(s_["then"], cur)
+                    b_ = flow(s_["else"], cur | ({nullp} if nullp else set())) if s_["else"] else set(cur) | ({nullp} if nullp else set())
+                    if a_ is None and b_ is None:
+                        return None
+                    cur = b_ if a_ is None else a_ if b_ is None else (a_ & b_)
+                elif k_ in ("for", "while"):
+                    if k_ == "for":
+                        flow(s_["init"], cur)
+                    flow(s_["body"], cur)      # obligations inside the body are checked; its deletes do not outlive the loop
+                elif k_ == "return":
+                    return None
+            return cur
+
+        def visit(e, cur):
+            for x in sub_exprs(e):
+                if x[0] == "delete":
+                    cur = cur | {lname(x[1])}
+                if x[0] == "assign" and x[1] == "=" and x[2][0] == "member" and x[2][2] == "data":
+                    owner = lname(x[2][1])
+                    tgt = lname(x[2])
+                    if owner in byref:
+                        r.check(tgt in cur, f"{n}/delete-before-overwrite[{tgt}]", (em.rel, line), f"{n}: `{show(x)}` overwrites the buffer pointer of a caller-owned list on a path that has not delete[]d the old buffer (leak on every such call)", sample=f"{n}: delete[] {tgt} before {show(x)[:40]}")
+                        cur = cur - {tgt}
+                    src = x[3]
+                    while src[0] == "cast":
+                        src = src[2]
+                    if src[0] == "member" and src[2] == "data" and lname(src[1]) != owner:
+                        r.fail(f"{n}/aliasing-store[{show(x)}]", (em.rel, line), f"{n}: `{show(x)}` makes two lists share one buffer: freeing or growing either leaves the other dangling")
+            return cur
+
+        flow(f["body"], set())
         if n == "__redu_list_assign":
             first = f["body"][0] if f["body"] else None
             okg = first is not None and first["k"] == "if" and show(first["cond"]) == "(&dest == &source)" and any(s["k"] == "return" for s in first["then"])
@@ -287,4 +325,5 @@ def run(cx):
     vals = sorted(norm(n.value) for n in li)
     r.check(vals == ["length + 1", "length - 1"], "tracked-list/length-counter-follows-append-remove", (pm, psl), f"length counter updates: {vals}")
     sz = [n for n in walk_local(ha) if isinstance(n, ast.If) and "expected != new_length" in norm(n.test) and any(isinstance(x, ast.Raise) for x in n.body)]
-    r.check(len(sz) == 1, "_handle_assignment_ast/size-mismatch-rejected", (pm, ha), "re-assigning a list with a different static length must be rejected (the tracked length feeds folded len())")
+    from . import c03
+    r.check(len(sz) == 1 and c03.list_size_guard_ok(pm), "_handle_assignment_ast/size-mismatch-rejected", (pm, ha), "re-assigning a list with a different static length must be rejected (the tracked length feeds folded len())")
